@@ -953,7 +953,13 @@ class NetConnections:
                     if filter_pid is not None and filter_pid != pid:
                         continue
                     else:
-                        path = tokens[-1] if len(tokens) == 8 else ''
+                        # The path is whatever follows "<inode> " up to
+                        # the end of the line; it may contain spaces.
+                        path = (
+                            line.split(None, 6)[6]
+                            .rstrip("\n")
+                            .partition(" ")[2]
+                        )
                         type_ = _common.socktype_to_enum(int(type_))
                         # XXX: determining the remote endpoint of a
                         # UNIX socket on Linux is not possible, see:
